@@ -506,6 +506,21 @@ func (fc *FnCtx) globalPtr(g *ssa.Global) Val {
 	name := "g:" + g.Pkg.Pkg.Name() + "." + g.Name()
 	if isObjectType(et) {
 		r := fc.vc.sc.declare(name, "Int")
+		if !fc.vc.subs["gdecl:"+name] {
+			// a package-level object: non-nil, its own root, allocated before any call, distinct from every other one
+			fc.vc.subs["gdecl:"+name] = true
+			id, ok := fc.eng.globalIDs[name]
+			if !ok {
+				id = len(fc.eng.globalIDs) + 1
+				fc.eng.globalIDs[name] = id
+			}
+			fc.vc.sc.declareFun("globalid", []string{"Int"}, "Int")
+			facts := []Term{app(">", r, "0"), eq(app("root", r), r), eq(app("globalid", r), itoa(int64(id)))}
+			if fc.vc.na0 != "" {
+				facts = append(facts, app("<", r, fc.vc.na0))
+			}
+			fc.vc.sc.assert(and(facts...))
+		}
 		return Val{K: KPtr, T: g.Type(), S: r}
 	}
 	return Val{K: KPtr, T: g.Type(), Loc: &Loc{Prefix: name}}
